@@ -2,9 +2,9 @@
 package gen
 
 import (
-	"regexp"
 	"fmt"
 	"math/rand/v2"
+	"regexp"
 	"strconv"
 	"strings"
 )
@@ -43,10 +43,71 @@ func Num(r *rand.Rand, o NumOpts) string {
 		return smallNums[r.IntN(len(smallNums))]
 	default:
 		if o.Big {
+			if r.IntN(3) == 0 {
+				return BigNear(r)
+			}
 			return bigNums[r.IntN(len(bigNums))]
 		}
 		return Boundary[r.IntN(len(Boundary))]
 	}
+}
+
+var bigAnchors = []string{"9223372036854775807", "18446744073709551615", "99999999999999999999", "20000000000000000000", "100000000000000000000", "9999999999999999999", "4294967295", "2147483647", "999999999999999999999"}
+
+// BigNear returns a number within +-2 of a 32/63/64-bit or 19/20/21-digit boundary (string arithmetic).
+func BigNear(r *rand.Rand) string {
+	a := bigAnchors[r.IntN(len(bigAnchors))]
+	for k := r.IntN(5); k > 0; k-- {
+		if r.IntN(2) == 0 {
+			a = decInc(a)
+		} else {
+			a = decDec(a)
+		}
+	}
+	return a
+}
+
+// BigFamily returns n numbers within +-3 of ONE boundary anchor (same-length neighbours).
+func BigFamily(r *rand.Rand, n int) []string {
+	a := bigAnchors[r.IntN(len(bigAnchors))]
+	out := []string{a}
+	x, y := a, a
+	for len(out) < n {
+		x, y = decInc(x), decDec(y)
+		out = append(out, x, y)
+	}
+	if r.IntN(3) == 0 {
+		out = append(out, "0"+a, "00"+x)
+	}
+	return out
+}
+
+func decInc(d string) string {
+	b := []byte(d)
+	for i := len(b) - 1; i >= 0; i-- {
+		if b[i] != '9' {
+			b[i]++
+			return string(b)
+		}
+		b[i] = '0'
+	}
+	return "1" + string(b)
+}
+
+func decDec(d string) string {
+	b := []byte(d)
+	for i := len(b) - 1; i >= 0; i-- {
+		if b[i] != '0' {
+			b[i]--
+			s := strings.TrimLeft(string(b), "0")
+			if s == "" {
+				return "0"
+			}
+			return s
+		}
+		b[i] = '9'
+	}
+	return "0"
 }
 
 func core(r *rand.Rand, min, max int, o NumOpts) []string {
@@ -123,7 +184,11 @@ func One(eco string, r *rand.Rand) string {
 	case "nuget":
 		s := strings.Join(core(r, 1, 4, lzb), ".")
 		if chance(r, 1, 2) {
-			s += "-" + strings.ToLower(SemverPre(r, 4))
+			if chance(r, 1, 3) {
+				s += "-" + SemverPre(r, 4) // mixed letter case (C01/C07; C08 filters it out)
+			} else {
+				s += "-" + strings.ToLower(SemverPre(r, 4))
+			}
 		}
 		if chance(r, 1, 5) {
 			s += "+" + semverBuild(r)
@@ -242,6 +307,9 @@ func One(eco string, r *rand.Rand) string {
 		}
 		if !strings.ContainsAny(s[len(s)-1:], "0123456789abcdefghijklmnopqrstuvwxyz") {
 			s += "1"
+		}
+		if chance(r, 1, 2) {
+			s += "-" + pick(r, "1", "2", "3", "10", "0", "01")
 		}
 		return s
 	case "debian", "rpm":
@@ -400,7 +468,7 @@ type MarkerSet struct {
 // MarkerTable is written from each parser's grammar and upstream docs.
 var MarkerTable = map[string]MarkerSet{
 	"alpine":     {Pre: []string{"_alpha", "_alpha1", "_beta", "_beta2", "_pre", "_pre1", "_rc", "_rc2", "_rc10"}, Post: []string{"_p", "_p1", "_cvs", "_svn", "_git", "_hg", "_p10", "-r1", "-r10", "_git20240101"}},
-	"alpm":       {Pre: []string{"a", "alpha", "beta", "pre", "rc", "rc1", "beta2"}, Post: nil},
+	"alpm":       {Pre: []string{"a", "alpha", "beta", "pre", "rc", "rc1", "beta2", "rc-1", "beta-2"}, Post: nil},
 	"apache":     {Pre: []string{"-alpha", "-alpha1", "-beta", "-beta2", "-RC1", "-rc1", "-M1", "-milestone2", "-SNAPSHOT", "-dev", "-ALPHA", "-Beta1"}, Post: nil},
 	"cargo":      {Pre: []string{"-alpha", "-alpha.1", "-rc1", "-rc.1", "-0", "-SNAPSHOT", "-beta.2", "-pre", "-1", "-a.b.c"}, Post: nil},
 	"composer":   {Pre: []string{"-alpha", "-alpha1", "-beta", "-beta.2", "-RC1", "-rc1", "a1", "b2", "rc1", "RC2", "-dev", "alpha1", "beta3", "-a1", "-b"}, Post: []string{"-patch1", "pl1", "-patch2", "pl2", "-patch", "pl"}},
@@ -464,10 +532,21 @@ func Respell(eco, s string, r *rand.Rand) []string {
 			add(s + "+build.1")
 		}
 	}
-	switch eco {
-	case "maven", "composer", "apache", "github", "conan", "gem", "mattermost":
-		add(strings.ToUpper(s))
-		add(strings.ToLower(s))
+	// letter-case variants (every ecosystem: C01 names mixed letter case; whether they are accepted and
+	// how they compare is observed, never assumed)
+	add(strings.ToUpper(s))
+	add(strings.ToLower(s))
+	if k := strings.IndexAny(s, "abcdefghijklmnopqrstuvwxyz"); k >= 0 && !(k == 0 && s[0] == 'v') {
+		add(s[:k] + strings.ToUpper(s[k:k+1]) + s[k+1:])
+	}
+	if eco == "alpm" {
+		if k := strings.LastIndexByte(s, '-'); k > 0 {
+			add(s[:k])
+			add(s[:k] + "-" + pick(r, "1", "2", "3"))
+		} else {
+			add(s + "-1")
+			add(s + "-3")
+		}
 	}
 	switch eco {
 	case "maven":
@@ -560,6 +639,14 @@ func Cluster(eco string, r *rand.Rand) []string {
 	bump := func(i int, f func(int64) int64) {
 		n, err := strconv.ParseInt(c[i], 10, 64)
 		if err != nil {
+			if len(c[i]) > 0 && c[i][0] >= '0' && c[i][0] <= '9' {
+				d := append([]string{}, c...)
+				d[i] = decInc(c[i])
+				out = append(out, strings.Join(d, "."))
+				d = append([]string{}, c...)
+				d[i] = decDec(c[i])
+				out = append(out, strings.Join(d, "."))
+			}
 			return
 		}
 		d := append([]string{}, c...)
@@ -583,6 +670,19 @@ func Cluster(eco string, r *rand.Rand) []string {
 	}
 	if len(c) > ar[0] {
 		out = append(out, strings.Join(c[:len(c)-1], "."))
+	}
+	// big-number family: the same base with one component replaced by neighbours of a 32/64-bit or
+	// 19/20/21-digit boundary
+	if chance(r, 1, 5) {
+		i := r.IntN(len(c))
+		for _, bn := range BigFamily(r, 5) {
+			d := append([]string{}, c...)
+			d[i] = bn
+			out = append(out, strings.Join(d, "."))
+			if len(ms.Post) > 0 && chance(r, 1, 3) {
+				out = append(out, strings.Join(d, ".")+ms.Post[r.IntN(len(ms.Post))])
+			}
+		}
 	}
 	// ecosystem-specific extras around the same base
 	for k := 0; k < 6; k++ {
